@@ -226,3 +226,309 @@ def check_c19(tier):
              "configuration file present",
         assumptions=["a configuration value of the wrong TYPE is not judged (statement lists unknown codes, invalid globs, unparsable file)",
                      "documents are sent by didOpen/didChange only (nothing on disk besides pyproject.toml)"])
+
+
+# ------------------------------------------------------------------------------------------- C17
+import ast as _ast  # noqa: E402
+
+USE_EXPR = {"call_target": "fx()", "arg": "print(fx)", "attr": "fx.value", "binop": "fx + 1", "unary": "-fx", "compare": "fx == 1",
+            "boolop": "fx and 1", "subscript": "fx[0]", "index": "data[fx]", "list": "[fx]", "tuple": "(fx, 1)",
+            "dict_value": "{1: fx}", "set": "{fx}", "kwarg": "print(sep=fx)", "fstring": 'f"{fx}"', "ifexp": "1 if fx else 2",
+            "starred": "print(*fx)", "await": "await fx"}
+FIX_TXT = "import pytest\n\n\n@pytest.fixture\ndef fx():\n    return 1\n"
+
+
+def ctx_lines(ctx, e):
+    return {"expr": [e], "assign": ["v = " + e], "augassign": ["total = 0", "total += " + e], "return": ["return " + e],
+            "if_test": ["if %s:" % e, "    pass"], "while_test": ["while %s:" % e, "    break"],
+            "for_iter": ["for _ in %s:" % e, "    pass"], "with_ctx": ["with %s:" % e, "    pass"], "assert": ["assert " + e],
+            "in_if_body": ["if True:", "    " + e], "in_for_body": ["for _ in range(1):", "    " + e],
+            "in_with_body": ["with open('f'):", "    " + e], "in_try_body": ["try:", "    " + e, "finally:", "    pass"],
+            "in_else_body": ["if False:", "    pass", "else:", "    " + e], "in_while_body": ["while True:", "    " + e, "    break"]}[ctx]
+
+
+def c17_files(cs):
+    """-> (files dict path->text in analysis order, test path, expected (line0, col) of the use or None)"""
+    vis, bind, use = cs["vis"], cs["bind"], cs["use"]
+    files = {}
+    root = "/vws17/R"
+    tpath = root + "/t/test_c.py"
+    if vis in ("conftest", "module_level_name", "imported_name", "module_function"):
+        files[root + "/t/conftest.py"] = FIX_TXT
+    elif vis == "parent_conftest":
+        files[root + "/conftest.py"] = FIX_TXT
+    elif vis == "sibling_conftest":
+        files[root + "/s/conftest.py"] = FIX_TXT
+    elif vis == "imported_by_conftest":
+        files[root + "/t/helperx.py"] = FIX_TXT
+        files[root + "/t/conftest.py"] = "import pytest\nfrom .helperx import *\n"
+    elif vis == "third_party":
+        files["/vws17/venv/lib/python3.11/site-packages/tp/plugin.py"] = FIX_TXT
+    head = ["import pytest", "data = {}"]
+    if vis == "same_file":
+        head += ["", "", "@pytest.fixture", "def fx():", "    return 1"]
+    if vis == "module_level_name":
+        head += ["fx = 3"]
+    if vis == "imported_name":
+        head += ["from os import path as fx"]
+    if vis == "module_function":
+        head += ["", "", "def fx():", "    return 0"]
+    head += ["", ""]
+    e = USE_EXPR[use]
+    is_async = use == "await"
+    body = []
+    use_stmt = ctx_lines(cs["ctx"], e)
+    if bind == "none":
+        body = use_stmt
+    elif bind == "assign_before":
+        body = ["fx = 1"] + use_stmt
+    elif bind == "assign_after":
+        body = use_stmt + ["fx = 1"]
+    elif bind == "assign_same_line":
+        body = ["fx = " + e]
+    elif bind == "tuple_before":
+        body = ["fx, other = 1, 2"] + use_stmt
+    elif bind == "for_target":
+        body = ["for fx in range(2):"] + ["    " + l for l in use_stmt]
+    elif bind == "with_as":
+        body = ["with open('f') as fx:"] + ["    " + l for l in use_stmt]
+    elif bind == "annassign_before":
+        body = ["fx: int = 1"] + use_stmt
+    elif bind == "augassign_before":
+        body = ["fx += 1"] + use_stmt
+    elif bind == "walrus_before":
+        body = ["print(fx := 1)"] + use_stmt
+    elif bind == "except_as":
+        body = ["try:", "    pass", "except Exception as fx:"] + ["    " + l for l in use_stmt]
+    elif bind == "import_in_fn":
+        body = ["import os as fx"] + use_stmt
+    elif bind == "nested_def":
+        body = ["def fx():", "    return 1"] + use_stmt
+    elif bind == "global_decl":
+        body = ["global fx"] + use_stmt
+    lines = head + [("async " if is_async else "") + "def test_t(a):"] + ["    " + l for l in body] + ["", ""]
+    text = "\n".join(lines) + "\n"
+    # position of the use: the occurrence of `fx` inside the use expression
+    pos = None
+    for i, l in enumerate(lines):
+        if e in l and i > len(head):
+            col = l.index(e) + e.index("fx")
+            pos = (i, col)
+            break
+    files[tpath] = text
+    return files, tpath, pos
+
+
+SHAPES = {
+    "no_params": (["def test_t():"], None), "one_param": (["def test_t(a):"], None), "many_params": (["def test_t(a, b, c):"], None),
+    "default_param": (["def test_t(a=1):"], None), "annotated_param": (["def test_t(a: int):"], None),
+    "return_annot": (["def test_t() -> None:"], None), "return_annot_params": (["def test_t(a) -> None:"], None),
+    "multiline": (["def test_t(", "    a,", "    b", "):"], None),
+    "multiline_trailing_comma": (["def test_t(", "    a,", "    b,", "):"], None),
+    "trailing_comma": (["def test_t(a, ):"], None),
+    "method": (["class TestK:", "    def test_t(self):"], "    "),
+    "async_fn": (["async def test_t(a):"], None), "decorated": (["@pytest.mark.skip", "def test_t(a):"], None),
+    "star_args": (["def test_t(*args):"], None), "kwargs": (["def test_t(**kw):"], None), "kwonly": (["def test_t(*, a):"], None),
+    "comment_after_colon": (["def test_t(a):  # note"], None),
+    "fixture_fn": (["@pytest.fixture", "def test_t(a):"], None),
+    "followed_by_other_fn": (["def test_t() -> None:"], None),
+}
+
+
+def c17_fix_text(cs):
+    sig, ind = SHAPES[cs["shape"]]
+    ind = ind or ""
+    e = USE_EXPR[cs["use"]]
+    lines = ["import pytest", "", ""] + sig + [ind + "    " + e, ind + "    ", ind + "    x = 1", "", "",
+                                               "def test_other(z):", "    pass", ""]
+    return "\n".join(lines) + "\n"
+
+
+def apply_edits(text, edits):
+    lines = text.split("\n")
+    for ed in sorted(edits, key=lambda e: (e["range"]["start"]["line"], e["range"]["start"]["character"]), reverse=True):
+        s, en = ed["range"]["start"], ed["range"]["end"]
+        if s["line"] >= len(lines) or en["line"] >= len(lines):
+            return None
+        before = lines[s["line"]][:s["character"]]
+        after = lines[en["line"]][en["character"]:]
+        new = (before + ed["newText"] + after).split("\n")
+        lines[s["line"]:en["line"] + 1] = new
+    return "\n".join(lines)
+
+
+def fn_params(tree, name):
+    for n in _ast.walk(tree):
+        if isinstance(n, (_ast.FunctionDef, _ast.AsyncFunctionDef)) and n.name == name:
+            a = n.args
+            return [x.arg for x in a.posonlyargs + a.args + a.kwonlyargs]
+    return None
+
+
+def others_dump(tree, name):
+    out = []
+    for n in _ast.walk(tree):
+        if isinstance(n, (_ast.FunctionDef, _ast.AsyncFunctionDef)) and n.name != name:
+            out.append(_ast.dump(n))
+    return out
+
+
+def check_c17(tier):
+    V = C.Verdict("C17", tier, "model_checking")
+    C.build_harness()
+    C.build_server()
+    metas = {}
+    for g in ("use", "bind", "fix"):
+        m = C.run_tlc("Undeclared", "Undeclared_%s.cfg" % g, workers=4, timeout=3600)
+        if not m["ok"]:
+            raise C.ToolError("TLC on Undeclared/%s failed: %s" % (g, m["errors"]))
+        metas[g] = m
+    # ---- precision and recall of the warning (library level: analysis of the test file LAST)
+    lib_cases = [c for g in ("use", "bind") for c in C.tlc_cases(metas[g])]
+    hcases, info = [], []
+    for c in lib_cases:
+        files, tpath, pos = c17_files(c["cs"])
+        try:
+            _ast.parse(files[tpath])
+        except SyntaxError as e:
+            raise C.ToolError("C17 renderer produced invalid Python (%s):\n%s" % (e, files[tpath]))
+        ops = [{"op": "analyze", "path": p, "text": t} for p, t in files.items()]
+        ops.append({"op": "undeclared", "path": tpath})
+        hcases.append({"id": len(hcases), "ops": ops})
+        info.append((c, files, tpath, pos))
+    for (c, files, tpath, pos), res in zip(info, C.run_harness(hcases)):
+        cs = c["cs"]
+        V.count()
+        V.nontriv(json.dumps(cs, sort_keys=True))
+        und = res["res"][-1]
+        ex = {"case": cs, "verdict": c["verdict"], "reported": und, "text": files[tpath]}
+        if not isinstance(und, list):
+            V.violation(ex, "analysis panicked")
+            continue
+        hits = [u for u in und if u["name"] == "fx"]
+        if c["verdict"] == "noflag" and hits:
+            V.classify(c17_dev(cs, "false_positive"), ex, "an undeclared-fixture warning is issued for a name that must not be flagged")
+        elif c["verdict"] == "flag":
+            want = (pos[0] + 1, pos[1], pos[1] + 2)
+            got = [(u["line"], u["sc"], u["ec"]) for u in hits]
+            if got != [want]:
+                V.classify(c17_dev(cs, "missed" if not got else "position"), dict(ex, expected_position=want),
+                           "a plain use of a visible undeclared fixture is not flagged exactly once at its position")
+    # ---- the quick fix and the completion parameter edit (real binary)
+    fix_cases = list(C.tlc_cases(metas["fix"]))
+    base = os.path.join(C.BUILD, "ws", "c17-%d" % os.getpid())
+    shutil.rmtree(base, ignore_errors=True)
+
+    def session(job):
+        n, c = job
+        root = os.path.join(base, "s%d" % n)
+        os.makedirs(root, exist_ok=True)
+        text = c17_fix_text(c["cs"])
+        cpath, tpath = os.path.join(root, "conftest.py"), os.path.join(root, "test_c.py")
+        srv = lsp.Server()
+        out = {"text": text}
+        try:
+            srv.initialize(root)
+            srv.did_open(cpath, FIX_TXT + "\n\n@pytest.fixture\ndef z():\n    return 2\n")
+            diags = srv.did_open(tpath, text)
+            und = [d for d in diags if d.get("code") == "undeclared-fixture" and "'fx'" in d.get("message", "")]
+            out["diags"] = und
+            if und:
+                acts = srv.request("textDocument/codeAction", {"textDocument": {"uri": lsp.path_to_uri(tpath)},
+                                                               "range": und[0]["range"], "context": {"diagnostics": [und[0]]}})
+                out["actions"] = acts
+            # completion inside the body (the line holding only indentation)
+            lines = text.split("\n")
+            bl = next(i for i, l in enumerate(lines) if l.strip() == "" and l != "" and i > 3)
+            comp = srv.pos_request("textDocument/completion", tpath, bl, len(lines[bl]))
+            items = comp if isinstance(comp, list) else (comp or {}).get("items", [])
+            out["completion_fx"] = [it for it in items if it.get("label") == "fx"]
+            # apply the quick fix, re-send, collect diagnostics again
+            if und and out.get("actions"):
+                uri = lsp.path_to_uri(tpath)
+                edits = None
+                for a in out["actions"]:
+                    ch = (a.get("edit") or {}).get("changes") or {}
+                    for k, v in ch.items():
+                        edits = v
+                if edits is not None:
+                    new = apply_edits(text, edits)
+                    out["fixed_text"] = new
+                    if new is not None:
+                        out["diags_after"] = srv.did_change(tpath, new)
+            out["alive"] = srv.alive()
+            return out
+        except (lsp.ServerDied, lsp.Timeout) as e:
+            out["error"] = str(e)
+            return out
+        finally:
+            srv.close()
+            shutil.rmtree(root, ignore_errors=True)
+
+    for c, r in zip(fix_cases, lsp.run_parallel(list(enumerate(fix_cases)), session, workers=8)):
+        cs = c["cs"]
+        V.count()
+        V.nontriv(json.dumps(cs, sort_keys=True))
+        if r is None or "__exception__" in r:
+            raise C.ToolError("LSP session failed: %r" % (r,))
+        ex = {"case": cs, "text": r["text"]}
+        if "error" in r:
+            V.violation(dict(ex, error=r["error"]), "server died or stopped answering during diagnostics / code action / completion")
+            continue
+        tree0 = _ast.parse(r["text"])
+        for label, new in (("quick fix", r.get("fixed_text")),
+                           ("completion parameter edit", apply_edits(r["text"], r["completion_fx"][0]["additionalTextEdits"])
+                            if r.get("completion_fx") and r["completion_fx"][0].get("additionalTextEdits") else None)):
+            if new is None:
+                continue
+            e2 = dict(ex, edit=label, result=new)
+            try:
+                tree1 = _ast.parse(new)
+            except SyntaxError as se:
+                V.classify(c17_fix_dev(cs, "syntax"), dict(e2, syntax_error=str(se)), "applying the offered %s produces a syntactically invalid document" % label)
+                continue
+            ps = fn_params(tree1, "test_t")
+            if ps is None or "fx" not in ps:
+                V.classify(c17_fix_dev(cs, "wrong_place"), dict(e2, params=ps), "after the offered %s the fixture is not a parameter of the function" % label)
+            if others_dump(tree1, "test_t") != others_dump(tree0, "test_t"):
+                V.classify(c17_fix_dev(cs, "other_fn"), e2, "the offered %s changes another function" % label)
+        if r.get("fixed_text") and isinstance(r.get("diags_after"), list):
+            try:
+                _ast.parse(r["fixed_text"])
+                still = [d for d in r["diags_after"] if d.get("code") == "undeclared-fixture" and "'fx'" in d.get("message", "")]
+                if still and "fx" in (fn_params(_ast.parse(r["fixed_text"]), "test_t") or []):
+                    V.violation(dict(ex, after=r["fixed_text"], diagnostics=still), "the warning survives the quick fix and re-analysis")
+            except SyntaxError:
+                pass
+    shutil.rmtree(base, ignore_errors=True)
+    V.sample({"case": lib_cases[0]["cs"], "verdict": lib_cases[0]["verdict"]})
+    V.sample({"fix_case": fix_cases[0]["cs"], "text": c17_fix_text(fix_cases[0]["cs"])})
+    cov = {"states": sum(m["distinct"] for m in metas.values()), "transitions": sum(m["transitions"] for m in metas.values()),
+           "traces_validated_against_impl": len(lib_cases) + len(fix_cases), "exhaustive": True,
+           "tlc": [{"cfg": m["cfg"], "wall_s": m["wall_s"]} for m in metas.values()]}
+    return V.finish(
+        coverage_extra=cov,
+        rule="use group: 18 expression forms x 15 statement contexts; bind group: 14 binding forms x 10 visibility kinds of the "
+             "name x {argument, attribute base}; verdict flag / noflag / open by Undeclared.tla, checked on the real library "
+             "with the exact position; fix group: 19 function shapes x 2 uses through the real binary: publishDiagnostics -> "
+             "codeAction -> edit applied -> CPython parse, parameter of the same function, other functions unchanged (ast "
+             "equality), didChange -> warning gone; the same postconditions for the completion item's additionalTextEdits",
+        assumptions=["uses in f-strings, keyword arguments, conditional expressions, starred arguments and `await` are enumerated "
+                     "but only judged when flagged wrongly (the statement lists plain uses)"])
+
+
+def c17_dev(cs, kind):
+    if kind == "missed":
+        if cs["vis"] == "imported_by_conftest":
+            return ["undeclared_ignores_conftest_imports"]
+    if kind == "false_positive":
+        if cs["bind"] == "walrus_before":
+            return ["undeclared_binding_forms_incomplete"]
+    return []
+
+
+def c17_fix_dev(cs, kind):
+    if cs["shape"] in ("default_param", "kwargs", "return_annot", "return_annot_params", "multiline", "multiline_trailing_comma",
+                       "trailing_comma", "followed_by_other_fn", "comment_after_colon", "kwonly", "star_args"):
+        return ["param_insertion_textual"]
+    return []
